@@ -529,7 +529,12 @@ def metaLang (c : Ctx) (start : Loc) : Option NVal :=
       match ch.elem? with
       | some e => c.tagName e == tag.toStr && c.isHtmlTag e
       | none => false
-  match findChild start "html" with
+  -- the walk ended on the document object (search its children) or on the root element of an `iframe` document
+  let htmlLoc : Option Loc :=
+    match start.elem? with
+    | some e => if !start.isDoc && c.tagName e == "html".toStr && c.isHtmlTag e then some start else findChild start "html"
+    | none => findChild start "html"
+  match htmlLoc with
   | none => none
   | some html =>
     match findChild html "head" with
@@ -550,14 +555,8 @@ def langOf (c : Ctx) (l : Loc) : Option NVal :=
   match found with
   | some v => some v
   | none =>
-    -- `root`/`has_html_namespace` are recomputed from the last element visited
-    let rootHtmlNs := match last.elem? with
-      | some e => (match e.ns with | some n => !n.isEmpty && n == NS_XHTML | none => false)
-      | none => false
-    let rootIsHtmlName := match last.elem? with
-      | some e => e.name == "html".toStr
-      | none => false
-    if !c.isXml || (rootHtmlNs && rootIsHtmlName) then metaLang c last else none
+    -- the pragma is an HTML feature: consulted when the document is HTML (XHTML included)
+    if c.isHtml then metaLang c last else none
 
 /-- `match_lang`. -/
 def matchLang (c : Ctx) (l : Loc) (langs : List LangSel) : Bool :=
